@@ -37,9 +37,10 @@ func init() {
 			"docs/lang.md 'Rethrowing Errors': (rethrow) re-raises the error the innermost running handler was called with, with its original trace and condition data, whatever handler-bind / ignore-errors forms began and ended while that handler ran; a changed condition is blamed on the handlers' work only when a control (same handlers, work left out) delivers the model's condition",
 			"a callee invoked by a builtin function on the program's behalf (callbacks of map, foldl, select, funcall, apply, stable-sort, ...) is called from that builtin's call expression, with and without elimination; for handlers and for all?/any? (which evaluate a call expression they build themselves, without position) only the callee's order and name are compared",
 		},
-		Cases:       func(tier string) int { return c18BaseCases(tier) + pick(tier, 2400, 80000) },
+		Cases:       func(tier string) int { return c18BaseCases(tier) + c18HWCases(tier) + c18ExpansionCases(tier) },
 		Run:         c18Run,
 		Init:        c18Init,
+		Driver:      c18Driver,
 		MinDistinct: func(tier string) int { return pick(tier, 800, 1400) },
 	})
 }
@@ -115,13 +116,40 @@ var c18UnpositionedCallbacks = map[string]bool{"all?": true, "any?": true, "hand
 // c18Cases: the base families fill the first c18BaseCases indices, the family
 // "handler work before rethrow" (c18_handlerwork.go) the rest.
 func c18BaseCases(tier string) int { return pick(tier, 16000, 500000) }
+func c18HWCases(tier string) int   { return pick(tier, 2400, 80000) }
 
-func c18Program(w *fw.W, idx int) ([]*sx.N, string, map[string]bool, *c18HW) {
+// the family "where in an expansion the position-less node sits" (c18_expansion.go)
+// is appended after those two, so the earlier indices generate what they generated before
+func c18Program(w *fw.W, idx int) ([]*sx.N, string, map[string]bool, *c18HW, *c18EX) {
+	if k := idx - c18BaseCases(w.Tier) - c18HWCases(w.Tier); k >= 0 {
+		forms, label, feats, ex := c18ExpansionProgram(w, idx, k)
+		return forms, label, feats, nil, ex
+	}
 	if idx >= c18BaseCases(w.Tier) {
-		return c18HandlerWorkProgram(w, idx, false)
+		forms, label, feats, hw := c18HandlerWorkProgram(w, idx, false)
+		return forms, label, feats, hw, nil
 	}
 	forms, label, feats := c18BaseProgram(w, idx)
-	return forms, label, feats, nil
+	return forms, label, feats, nil, nil
+}
+
+// c18Driver: the appended family must have produced judged programs in every slot,
+// spelling and builder class; otherwise the run says nothing about them.
+func c18Driver(d *fw.D) {
+	if got, want := d.Counters["expansion_programs_compared"], int64(c18ExpansionCases(d.Tier)/2); got < want {
+		d.Inconclusive(fmt.Sprintf("family expansion-position: %d programs were compared with the model, at least %d expected", got, want))
+	}
+	if got := len(d.Sets["expansion_slots_compared"]); got != len(c18XSlots) {
+		d.Inconclusive(fmt.Sprintf("family expansion-position: %d of %d slots produced a judged program", got, len(c18XSlots)))
+	}
+	for _, b := range c18XBuilders {
+		if !d.Sets["expansion_builders_compared"][b] {
+			d.Inconclusive("family expansion-position: no judged program of builder " + b)
+		}
+	}
+	if got, want := len(d.Sets["expansion_classes_compared"]), pick(d.Tier, 150, 250); got < want {
+		d.Inconclusive(fmt.Sprintf("family expansion-position: %d distinct slot/spelling/builder classes were judged, at least %d expected", got, want))
+	}
 }
 
 func c18BaseProgram(w *fw.W, idx int) ([]*sx.N, string, map[string]bool) {
@@ -231,7 +259,7 @@ func c18MacroProgram(r *fw.RNG) []*sx.N {
 }
 
 func c18Run(w *fw.W, idx int) {
-	forms, label, feats, hw := c18Program(w, idx)
+	forms, label, feats, hw, ex := c18Program(w, idx)
 	src := sx.Render(forms, c01Layout(w.RNG(idx, "layout")))
 	// finding keys of the family "handler work before rethrow" name the class of
 	// work and of terminal its handlers were built with
@@ -240,10 +268,14 @@ func c18Run(w *fw.W, idx int) {
 		if hw != nil && rethrown {
 			return k + hw.suffix()
 		}
+		if ex != nil {
+			return k + ex.suffix()
+		}
 		return k
 	}
 
 	in := refint.New()
+	ex.setupModel(in)
 	_, merr := func() (mv *refint.V, me *refint.Err) {
 		defer func() {
 			if rec := recover(); rec != nil {
@@ -260,6 +292,7 @@ func c18Run(w *fw.W, idx int) {
 	// what fails are C01's business: here they would only repeat that finding.
 	inq := refint.New()
 	inq.Quirks = refint.Quirks{LetStarSharedScope: true}
+	ex.setupModel(inq)
 	_, qerr := func() (mv *refint.V, me *refint.Err) {
 		defer func() {
 			if rec := recover(); rec != nil {
@@ -276,9 +309,11 @@ func c18Run(w *fw.W, idx int) {
 	offOpts := rt.Opts{MaxSteps: 400_000, Debugger: true, MaxPhys: 4000}
 	onOpts := rt.Opts{MaxSteps: 400_000, MaxPhys: 4000}
 	off := rt.New(offOpts)
+	ex.setupReal(off.Env)
 	voff := off.Env.LoadString("c18", src)
 	c18ElideLog = map[c18Elided]bool{}
 	on := rt.New(onOpts)
+	ex.setupReal(on.Env)
 	von := on.Env.LoadString("c18", src)
 	elided := c18ElideLog
 	c18ElideLog = nil
@@ -453,6 +488,18 @@ func c18Run(w *fw.W, idx int) {
 	w.CoverKey(fmt.Sprintf("%s|%s|%s|%s|depth=%d", label, merr.Class, kinds, posClass, len(real)/3))
 	if hw != nil {
 		w.CoverKey(fmt.Sprintf("handler-work|%s|%s|%s|rethrown=%d", hw.kind, hw.term, merr.Class, min(merr.Rethrown, 4)))
+	}
+	if ex != nil {
+		w.CoverKey(fmt.Sprintf("expansion|%s|%s|uses=%d", ex.class(), merr.Class, ex.uses))
+		w.Count("expansion_programs_compared", 1)
+		w.Count("expansion_programs_compared:"+ex.fail, 1)
+		if ex.uses > 1 {
+			w.Count("expansion_programs_with_earlier_call_sites", 1)
+		}
+		w.SetAdd("expansion_slots_compared", ex.slot)
+		w.SetAdd("expansion_spellings_compared", ex.spell)
+		w.SetAdd("expansion_builders_compared", ex.builder)
+		w.SetAdd("expansion_classes_compared", ex.class())
 	}
 	for f := range feats {
 		if strings.HasPrefix(f, "hostile:") {
